@@ -25,6 +25,8 @@ def run(ctx):
         twins(ctx, rng, npstats)
     for i, rng in ctx.cases("zero_hz", ctx.n(96, 2000)):
         zero_hz(ctx, rng, xr)
+    for i, rng in ctx.cases("narrow_beam", ctx.n(96, 2000)):
+        narrow_beam(ctx, rng, xr)
 
 
 def zero_hz(ctx, rng, xr):
@@ -61,6 +63,57 @@ def zero_hz(ctx, rng, xr):
             rec.ok("zero_hz:" + op, key)
         else:
             rec.bad("zero_hz:" + op, key, {"obs": o, "ref": refs[op], "worst_over_tol": worst, "freq": f, "dir": th, "E1d": e1}, "zero-frequency-bin-mishandled")
+
+
+def narrow_beam(ctx, rng, xr):
+    """Nearly unidirectional float64 spectra (a swell one bin wide with a little energy in the neighbouring bins, or a beam
+    one or two bins wide on a fine grid): spreads of hundredths of a degree to a few degrees are small but well conditioned
+    in double precision (1 - r is many orders above rounding), so dspr and dm are still decided against their integrals."""
+    rec = ctx.rec
+    f, fm = gen.freq_grid(rng, nf=int(rng.choice([3, 6, 12])), dtype="float64")
+    nd = int(rng.choice([8, 24, 36, 72, 180, 360]))
+    th, dd, dmeta = gen.dir_grid(rng, nd=nd, full=True)
+    names, sizes = gen.lead_dims(rng, nlead=int(rng.choice([0, 1])), maxsize=3)
+    n = int(np.prod(sizes)) if sizes else 1
+    A = np.zeros((n, len(f), nd))
+    for j in range(n):
+        c = int(rng.integers(nd))
+        A[j, :, c] = rng.random(len(f)) + 0.05
+        leak = 10 ** rng.uniform(-5.0, -1.0)
+        for side in (-1, 1):
+            if rng.random() < 0.8:
+                A[j, :, (c + side) % nd] = leak * rng.random() * A[j, :, c]
+        A[j] *= 10 ** rng.uniform(-2, 1)
+    A = A.reshape(tuple(sizes) + (len(f), nd))
+    da = gen.make_da(A, f, th, names, sizes, dtype="float64")
+    if rng.random() < 0.3:
+        da = da.roll(dir=int(rng.integers(1, nd)), roll_coords=True)
+    E = da.values.astype("float64")
+    thv = da.dir.values.astype("float64")
+    acc = da.to_dataset(name="efth").spec if rng.random() < 0.5 else da.spec
+    key = "nd=%d|nf=%d|lead=%d" % (nd, len(f), len(names))
+    refsp, q = I.dspr(E, f.astype("float64"), thv, dd)
+    refdm, res = I.dm(E, f.astype("float64"), thv, dd, weighted=False)
+    try:
+        o = vals(acc.dspr(), list(names))
+        od = vals(acc.dm(), list(names))
+    except Exception as e:
+        rec.bad("narrow_beam:dspr", key, {"raised": repr(e)[:300]}, None)
+        return
+    # rounding of r is ~1e-14 here (sums of at most a few thousand terms of one sign); relative error of dspr ~ 1e-14 / (2 q)
+    cond = q > 1e-8
+    if not np.any(cond):
+        rec.skip("narrow_beam:dspr", "ill-conditioned")
+        return
+    ok, worst = close(np.where(cond, o, 0.0), np.where(cond, refsp, 0.0), 1e-5, 0.0)
+    band = "q<1e-5" if float(np.min(q[cond])) < 1e-5 else "q>=1e-5"
+    if ok:
+        rec.ok("narrow_beam:dspr", key + "|" + band, sample={"obs": np.asarray(o).ravel()[:3], "ref": np.asarray(refsp).ravel()[:3]})
+        rec.note("narrow_beam_spread_below_quarter_degree" if band == "q<1e-5" else "narrow_beam_spread_above_quarter_degree")
+    else:
+        rec.bad("narrow_beam:dspr", key + "|" + band, {"obs": o, "ref": refsp, "one_minus_r": q, "worst_over_tol": worst, "dir": thv}, "narrow-spread-not-the-integral")
+    okd, worstd = circ_close(od, refdm, np.full(np.shape(refdm), 1e-7))
+    (rec.ok("narrow_beam:dm", key) if okd else rec.bad("narrow_beam:dm", key, {"obs": od, "ref": refdm, "worst_over_tol": worstd, "dir": thv}, "narrow-beam-mean-direction-wrong"))
 
 
 # ---------------------------------------------------------------------------
